@@ -228,3 +228,14 @@ Example element_example :
   let i := IList [IList [IScalar 1%R; IScalar 2%R]; IList [IArr 7 DFloat64 [2%Z] [3%R; 4%R]]] in
   element current_variants S i = RProdE [RTens [1%R; 2%R] None; RProdE [RTens [3%R; 4%R] (Some 7%Z)]].
 Proof. reflexivity. Qed.
+
+(* ================================================================ float side lemma (all binary64 floats)
+   RectGrid compares coordinates with float == but hashes (cv + 0.0).tobytes(): over Coq's
+   primitive floats (signed zeros, infinities, NaN included), x == y implies that x + 0.0 and
+   y + 0.0 are the same float; without the + 0.0 it fails (0.0 == -0.0). *)
+From Verif Require Import C20.FloatBytes.
+Theorem grid_hash_bytes_follow_float_eq : forall a b : PrimFloat.float,
+  PrimFloat.eqb a b = true -> PrimFloat.add a PrimFloat.zero = PrimFloat.add b PrimFloat.zero.
+Proof. exact float_eq_same_bytes_after_plus_zero. Qed.
+Theorem grid_hash_raw_bytes_refuted : exists a b : PrimFloat.float, PrimFloat.eqb a b = true /\ a <> b.
+Proof. exact float_eq_same_bytes_refuted. Qed.
